@@ -145,6 +145,25 @@ class E:
             return NotImplemented
         o = _num_to_E(o)
         a, b = (o, self) if swap else (self, o)
+        # exact field laws only: x*0 = 0, x*1 = x, x+0 = x, x-0 = x (a literal 0.0 / 1.0 in the source, or an identity block)
+        za, zb = a.op == "rat" and a.args[0] == 0, b.op == "rat" and b.args[0] == 0
+        oa, ob = a.op == "rat" and a.args[0] == 1, b.op == "rat" and b.args[0] == 1
+        if op == "mul":
+            if za or zb:
+                return E("rat", (Fraction(0),), True)
+            if oa:
+                return b
+            if ob:
+                return a
+        elif op == "add":
+            if za:
+                return b
+            if zb:
+                return a
+        elif op == "sub" and zb:
+            return a
+        elif op == "div" and ob:
+            return a
         return E(op, (a, b), a.real and b.real)
 
     def __add__(self, o):
